@@ -4,8 +4,9 @@ stdin JSON (all keys optional):
   {"parse": [hex, ...],                      AdvDataFieldList.from_bytes(bytes)
    "build": [[call, ...], ...],              constructors, AdvDataFieldList(*recs).to_bytes(), from_bytes of it
    "scan":  [[kind, hex], ...],              AdvertisingDevicesDB.on_device_found on an ADV_IND/NONCONN/SCAN_RSP
-   "seq":   [{"filter": id|null, "updates": bool, "events": [[pdu, addr id, txadd, rssi, hex], ...]}, ...]
-                                             one AdvertisingDevicesDB per case, on_device_found per event (time frozen)
+   "seq":   [{"filter": id|null, "updates": bool, "events": [[dt_ms, pdu, addr id, txadd, rssi, hex], ...]}, ...]
+                                             one AdvertisingDevicesDB per case, on_device_found per event; the name `time`
+                                             of whad.ble.scanning is a virtual clock advanced by dt_ms before each call
    "exh":   {"len": 3, "lo": a, "hi": b},    exhaustive oracle on all strings of that length whose first byte is in [a,b)
    "utf8":  {"rows": bool, "decode": [hex, ...], "encode": [[cp, ...], ...]}}   CPython codec facts
 stdout: RESULT {...} (canonical observables only: ints, hex, class names).
@@ -249,7 +250,8 @@ def dev_obs(d):
     rsp = d.scan_rsp_records
     return [d.address_type, d.rssi, [canon(r) for r in d.adv_records],
             None if rsp is None else [canon(r) for r in rsp],
-            bool(d.got_scan_rsp), bool(d.connectable), bool(d.scanned), bool(d.reported)]
+            bool(d.got_scan_rsp), bool(d.connectable), bool(d.scanned), bool(d.reported),
+            int(d.timestamp * 1000), int(d.last_seen * 1000)]
 
 
 def do_seq(case):
@@ -258,14 +260,17 @@ def do_seq(case):
     exception class (the sequence stops there); at the end find_device() of every address."""
     import whad.ble.scanning as S
     from scapy.layers.bluetooth4LE import BTLE_ADV, BTLE_ADV_IND, BTLE_ADV_NONCONN_IND, BTLE_SCAN_RSP
-    S.time = lambda: 1000.0          # the 0.5 s scan-response timeout never elapses
+    from fractions import Fraction
+    clock = [0]                      # milliseconds; exact arithmetic: (now - timestamp) > 0.5 <=> more than 500 ms
+    S.time = lambda: Fraction(clock[0], 1000)
     layers = {"AdvInd": BTLE_ADV_IND, "AdvNonconn": BTLE_ADV_NONCONN_IND, "ScanRsp": BTLE_SCAN_RSP}
     del URLS[:]
     db = S.AdvertisingDevicesDB()
     filt = None if case["filter"] is None else addr_str(case["filter"])
     ids = {}
     steps = []
-    for pdu, a, txadd, rssi, hx in case["events"]:
+    for dt, pdu, a, txadd, rssi, hx in case["events"]:
+        clock[0] += dt
         adv = bytes.fromhex(hx)
         ids[addr_str(a)] = a
         raw = bytes([PDU_BYTE[pdu] | (txadd << 6), 6 + len(adv)]) + addr_wire(a) + adv
@@ -286,6 +291,9 @@ def do_seq(case):
         try:
             devs = db.on_device_found(rssi, pkt, filt, updates=case["updates"])
             st["ret"] = [ids.get(d.address, 0) for d in devs]
+            found = {i: db.find_device(s_) for s_, i in ids.items()}
+            st["known"] = sorted(i for i, d in found.items() if d is not None)
+            st["got"] = sorted(i for i, d in found.items() if d is not None and d.got_scan_rsp)
         except Exception as e:  # noqa
             st["exc"] = exc_name(e)
             steps.append(st)
